@@ -110,12 +110,13 @@ func hookChart(hooks []gHook, version int) *chart.Chart {
 }
 
 type hookStep struct {
-	Kind         string  `json:"kind"`
-	Hooks        []gHook `json:"hooks,omitempty"` // the chart's hooks (install / upgrade)
-	Fail         string  `json:"fail,omitempty"`  // name of the hook whose watch fails
-	DisableHooks bool    `json:"disableHooks"`
-	KeepHistory  bool    `json:"keepHistory"`
-	ResFails     bool    `json:"resFails"`
+	Kind          string  `json:"kind"`
+	Hooks         []gHook `json:"hooks,omitempty"` // the chart's hooks (install / upgrade)
+	Fail          string  `json:"fail,omitempty"`  // name of the hook whose watch fails
+	DisableHooks  bool    `json:"disableHooks"`
+	KeepHistory   bool    `json:"keepHistory"`
+	CleanupOnFail bool    `json:"cleanupOnFail"`
+	ResFails      bool    `json:"resFails"`
 }
 
 func isHookKey(k string) bool { return strings.Contains(k[strings.LastIndex(k, "/")+1:], "hook-") }
@@ -154,7 +155,7 @@ func canonTrace(tr []string) []string {
 func corrHooks(seed uint64, n int, tier string, out string, replay string) {
 	m := StartModel()
 	defer m.Close()
-	rep := NewReport("C12", "hooks", seed, "case = history of 2-5 operations (install, upgrade, rollback, uninstall) of a chart with 0-5 hooks (ConfigMap and unstructured kinds; 1-8 events each, sometimes mentioned twice; weights negative, equal, signed, absent; every subset of the three delete policies incl. none) run through the real action package against the simulated API server with a scripted waiter; per operation one executing hook may be scripted to fail, hooks may be disabled, the resource phase may fail, an uninstall may keep the history; the ordered trace of hook creates / deletes / watches and resource-phase requests is compared with the Lean hook model (fed with the release's hook list), and order, one-at-a-time, gating, policy deletions, hooks-not-in-manifest are monitored on the implementation's trace with the generator's own weights; non-trivial = at least 2 operations ran hooks; distinct = hash of the history")
+	rep := NewReport("C12", "hooks", seed, "case = history of 2-5 operations (install, upgrade, rollback, uninstall) of a chart with 0-5 hooks (ConfigMap and unstructured kinds; 1-8 events each, sometimes mentioned twice; weights negative, equal, signed, absent; every subset of the three delete policies incl. none) run through the real action package against the simulated API server with a scripted waiter; per operation one executing hook may be scripted to fail, hooks may be disabled, the resource phase may fail, an uninstall may keep the history, an upgrade or rollback may run with cleanup-on-fail; the ordered trace of hook creates / deletes / watches and resource-phase requests is compared with the Lean hook model (fed with the release's hook list), and order, one-at-a-time, gating, policy deletions, hooks-not-in-manifest are monitored on the implementation's trace with the generator's own weights; non-trivial = at least 2 operations ran hooks; distinct = hash of the history")
 	for _, id := range caseSeq("hooks", seed, n) {
 		hooksHistory(m, rep, NewRng(id.Seed, uint64(id.Index)), id.Seed, id.Index)
 	}
@@ -225,6 +226,7 @@ func hooksHistory(m *Model, rep *Report, r *Rng, seed uint64, idx int) {
 		st.DisableHooks = r.Chance(12)
 		st.ResFails = r.Chance(8) && st.Kind != "uninstall"
 		st.KeepHistory = st.Kind == "uninstall" && len(hist)%2 == 1 // no extra random draw
+		st.CleanupOnFail = (st.Kind == "upgrade" || st.Kind == "rollback") && (len(hist)+idx)%2 == 0
 		var executing []gHook
 		for _, h := range gen {
 			for _, e := range h.Events {
@@ -269,10 +271,11 @@ func hooksHistory(m *Model, rep *Report, r *Rng, seed uint64, idx int) {
 			case "upgrade":
 				up := action.NewUpgrade(cfg)
 				up.Namespace, up.DisableOpenAPIValidation, up.DisableHooks = "default", true, st.DisableHooks
+				up.CleanupOnFail = st.CleanupOnFail
 				rel, err = up.Run("app", hookChart(cur, version), map[string]any{})
 			case "rollback":
 				rb := action.NewRollback(cfg)
-				rb.DisableHooks = st.DisableHooks
+				rb.DisableHooks, rb.CleanupOnFail = st.DisableHooks, st.CleanupOnFail
 				err = rb.Run("app")
 			case "uninstall":
 				un := action.NewUninstall(cfg)
